@@ -389,3 +389,14 @@ Print Assumptions C11_vhost_blocking_send_refuted.
 Theorem C11_legacy_pool_conversion_today : legacy_pool_fields_ok gen_legacy_pool_fields = true.
 Proof. vm_compute. reflexivity. Qed.
 Print Assumptions C11_legacy_pool_conversion_today.
+
+
+(* ---- visitor accept path: visitor connection -> visitor.Manager.NewConn -> InternalListener.PutConn -> accept loop ----
+   reflective (T11send/paths): PutConn on a closed listener returns an error (recover-wrapped send on the channel
+   Close closes, error returned), NewConn hands that error to its caller, RegisterVisitorConn returns it, and
+   handleConnection closes the connection when it is non-nil.  These are the code facts behind the model's
+   IPSend/SPanic -> IPCloseIt -> IClosed branch (C11_visitor_conn_handled_or_closed): a visitor connection that
+   arrives while the proxy is closing (listener closed, entry still registered) is closed, not left open. *)
+Theorem C11_visitor_path_today : visitor_path_ok gen_visitor_path = true.
+Proof. vm_compute. reflexivity. Qed.
+Print Assumptions C11_visitor_path_today.
